@@ -692,6 +692,24 @@ std::uint64_t judge_resize(ctx<T, N> &c, obox<N> const &a, typename lib<T, N>::b
       VF_COUNT("stretch_absolute/empty-result");
     judge_same_points<T, N>(c, "stretch_absolute", want, got, "box " + show<N>(a) + " by " + show<N>(v));
   }
+  // round trips through a possibly empty (inverted) intermediate box, signed coordinates: what the intermediate box is
+  // as a point set may be "empty", but it is a box with corners, and undoing the resize gives the points of the
+  // original box back (shrink and stretch_absolute move each face by exactly v)
+  if (!c.uns)
+  {
+    pt<N> mv{};
+    for (dim_t i = 0; i < N; ++i)
+      mv[i] = -v[i];
+    auto const lmv = L::mkvec(mv);
+    obox<N> const back1 = L::ob(fcppt::math::box::stretch_absolute(fcppt::math::box::stretch_absolute(la, lv), lmv));
+    obox<N> const back2 = L::ob(fcppt::math::box::shrink(fcppt::math::box::shrink(la, lv), lmv));
+    obox<N> const back3 = L::ob(fcppt::math::box::shrink(fcppt::math::box::stretch_absolute(la, lv), lv));
+    calls += 3;
+    judge_same_points<T, N>(c, "stretch_absolute", a, back1, "round trip: box " + show<N>(a) + " stretched by " + show<N>(v) + " and by its negation");
+    judge_same_points<T, N>(c, "shrink", a, back2, "round trip: box " + show<N>(a) + " shrunk by " + show<N>(v) + " and by its negation");
+    judge_same_points<T, N>(c, "stretch_absolute", a, back3, "round trip: box " + show<N>(a) + " stretched and shrunk by " + show<N>(v));
+    VF_COUNT("resize/round-trips-through-possibly-inverted-boxes");
+  }
   bool relative_in_range = !neg;
   for (dim_t i = 0; i < N; ++i) // observed only: keep size*factor far away from overflow
     relative_in_range = relative_in_range && (a.hi[i] - a.lo[i]) * v[i] < (1LL << 30);
